@@ -71,6 +71,14 @@ func (r *ReceivedMessageReader[C]) loop(loopDone chan struct{}, readingMessages 
 			r.private.mutex.Lock()
 			readingMessages.Store(true)
 			r.private.mutex.Unlock()
+			// If the loop was replaced while the message was being processed, leave now: select picks
+			// at random among ready cases, so going round again could take further messages from the
+			// queue next to the new loop and hand them over out of order.
+			select {
+			case <-loopDone:
+				return
+			default:
+			}
 		// if the client is closed, the loop will be closed
 		case <-r.cc.Done():
 			return
